@@ -740,10 +740,10 @@ def main():
     meta += m
 
     direct_tables()
+    direct_isotope_ion_witness()
     direct_elements(els)
     direct_conversion()
     direct_compounds(els + [T.H])
-    direct_isotope_ion_witness()
     direct_f0()
 
     json.dump(dict(cases=cases, meta=meta, direct_fails=direct_fails,
